@@ -383,8 +383,21 @@ func init() {
 		if x.Const {
 			return ex.goInt(int64(x.BigS().BitLen()))
 		}
-		ex.unsupported("big.Int.BitLen of a symbolic value")
-		return nil
+		// number of bits of |x|: an ite chain over the thresholds 2^k
+		top := 256
+		if !ex.intMode {
+			top = ex.bigW - 2
+		} else {
+			bound := new(big.Int).Lsh(big.NewInt(1), uint(top))
+			ex.assumptions[fmt.Sprintf("big.Int.BitLen: |x| < 2^%d", top)] = true
+			ex.assume(ex.bigCmpTerm("<", ex.bigAbs(x), ex.bigConst(bound)), ex.posOf(site))
+		}
+		ax := ex.bigAbs(x)
+		n := ex.goInt(0)
+		for k := 0; k < top; k++ {
+			n = ex.ts.Ite(ex.bigCmpTerm(">=", ax, ex.bigConst(new(big.Int).Lsh(big.NewInt(1), uint(k)))), ex.goInt(int64(k+1)), n)
+		}
+		return n
 	})
 	reg("Float64", func(ex *Exec, fr *Frame, fn *ssa.Function, a []Value, site ssa.Instruction) Value {
 		x := ex.bigOf(a[0], site)
